@@ -64,7 +64,8 @@ func intInfo(t types.Type) (w int, signed bool, ok bool) {
 func pow2(n int) *big.Int { return new(big.Int).Lsh(big.NewInt(1), uint(n)) }
 
 type Arith struct {
-	mode Mode
+	mode   Mode
+	needUF map[string][2]interface{} // uninterpreted bit operators used (int mode)
 }
 
 func (a *Arith) intSort(w int) string {
@@ -225,7 +226,29 @@ func (a *Arith) BinOp(op token.Token, x, y string, w int, signed bool) (string, 
 			}
 		}
 	}
-	return "", fmt.Errorf("operator %v needs the bv encoding (function is in int mode)", op)
+	// Other bitwise operators in the int encoding: uninterpreted functions of
+	// the operand width (sound: any fact proved holds for every interpretation,
+	// in particular the real operator). Bit-level reasoning needs the bv encoding.
+	var name string
+	switch op {
+	case token.AND:
+		name = "uand"
+	case token.OR:
+		name = "uor"
+	case token.XOR:
+		name = "uxor"
+	case token.AND_NOT:
+		name = "uandnot"
+	default:
+		return "", fmt.Errorf("operator %v needs the bv encoding (function is in int mode)", op)
+	}
+	sg := "u"
+	if signed {
+		sg = "s"
+	}
+	fn := fmt.Sprintf("%s%d%s", name, w, sg)
+	a.needUF[fn] = [2]interface{}{w, signed}
+	return fmt.Sprintf("(%s %s %s)", fn, x, y), nil
 }
 
 func lowMaskBits(c *big.Int) int {
@@ -274,7 +297,17 @@ func (a *Arith) Shift(op token.Token, x, cnt string, w int, signed bool, cw int,
 	}
 	c, ok := isIntLiteral(cnt)
 	if !ok {
-		return "", fmt.Errorf("non-constant shift needs the bv encoding")
+		name := "ushl"
+		if op == token.SHR {
+			name = "ushr"
+		}
+		sg := "u"
+		if signed {
+			sg = "s"
+		}
+		fn := fmt.Sprintf("%s%d%s", name, w, sg)
+		a.needUF[fn] = [2]interface{}{w, signed}
+		return fmt.Sprintf("(%s %s %s)", fn, x, cnt), nil
 	}
 	if c.Sign() < 0 {
 		return "", fmt.Errorf("negative constant shift")
